@@ -23,9 +23,81 @@ VERIF = Path(__file__).resolve().parent.parent
 def load_mutants(prop: str) -> list[dict]:
     try:
         mod = importlib.import_module(f"mutants.{prop}")
+        muts = list(mod.MUTANTS)
     except ModuleNotFoundError:
-        return []
-    return list(mod.MUTANTS)
+        muts = []
+    # the confirmed seeded changes written against this property (seeded/<prop><letter>/patch.diff) are
+    # mutants too: each is applied in memory and must be reported by some rule of the property
+    sd = VERIF / "seeded"
+    if sd.is_dir():
+        for d in sorted(sd.iterdir()):
+            if d.is_dir() and d.name.startswith(prop) and not d.name.startswith("_") and (d / "patch.diff").exists():
+                muts.append({"name": f"seeded-{d.name}", "patch": str(d / "patch.diff"), "rules": []})
+    return muts
+
+
+def _apply_unified_diff(repo_root: str, diff_text: str):
+    """Apply a unified diff in memory: {relative file: new text} or (None, reason).  Hunks are located by
+    their exact old block (context + removed lines), searched outward from the recorded position."""
+    import re
+
+    files: dict[str, list[tuple[int, list[str], list[str]]]] = {}
+    cur = None
+    lines = diff_text.split("\n")
+    i = 0
+    while i < len(lines):
+        ln = lines[i]
+        if ln.startswith("+++ "):
+            path = ln[4:].split("\t")[0].strip()
+            cur = path[2:] if path.startswith(("a/", "b/")) else path
+            files.setdefault(cur, [])
+        elif ln.startswith("@@") and cur is not None:
+            m = re.match(r"@@ -(\d+)(?:,(\d+))? \+(\d+)(?:,(\d+))? @@", ln)
+            start = int(m.group(1)) if m else 1
+            old, new = [], []
+            i += 1
+            while i < len(lines) and not lines[i].startswith(("@@", "diff ", "--- ", "+++ ")):
+                h = lines[i]
+                if h.startswith("\\"):
+                    pass
+                elif h.startswith("-"):
+                    old.append(h[1:])
+                elif h.startswith("+"):
+                    new.append(h[1:])
+                else:
+                    old.append(h[1:] if h.startswith(" ") else h)
+                    new.append(h[1:] if h.startswith(" ") else h)
+                i += 1
+            # a trailing empty element comes from the final newline of the diff text
+            while old and new and old[-1] == "" and new[-1] == "" and i >= len(lines):
+                old.pop()
+                new.pop()
+            files[cur].append((start, old, new))
+            continue
+        i += 1
+    out = {}
+    for rel, hunks in files.items():
+        if rel == "/dev/null":
+            continue
+        pth = Path(repo_root) / rel
+        src = pth.read_text().split("\n") if pth.exists() else []
+        shift = 0
+        for start, old, new in hunks:
+            pos = None
+            guess = max(0, start - 1 + shift)
+            for delta in range(0, len(src) + 1):
+                for cand in (guess + delta, guess - delta):
+                    if 0 <= cand <= len(src) - len(old) and src[cand : cand + len(old)] == old:
+                        pos = cand
+                        break
+                if pos is not None:
+                    break
+            if pos is None:
+                return None, f"hunk at line {start} of {rel} does not apply"
+            src[pos : pos + len(old)] = new
+            shift += len(new) - len(old)
+        out[rel] = "\n".join(src)
+    return out, ""
 
 
 def _apply(src: str, m: dict):
@@ -75,16 +147,26 @@ def _apply(src: str, m: dict):
 def _run_one(args):
     prop, repo_root, m = args
     try:
-        path = Path(repo_root) / m["file"]
-        src = path.read_text()
-        new, msg = _apply(src, m)
-        if new is None:
-            return (m["name"], "not-applicable", msg)
-        try:
-            compile(new, m["file"], "exec")
-        except SyntaxError as exc:
-            return (m["name"], "broken-mutant", f"does not compile: {exc}")
-        overlay = {m["file"]: new}
+        if m.get("patch"):
+            overlay, msg = _apply_unified_diff(repo_root, Path(m["patch"]).read_text())
+            if overlay is None:
+                return (m["name"], "not-applicable", msg)
+            for rel, txt in overlay.items():
+                try:
+                    compile(txt, rel, "exec")
+                except SyntaxError as exc:
+                    return (m["name"], "broken-mutant", f"{rel} does not compile: {exc}")
+        else:
+            path = Path(repo_root) / m["file"]
+            src = path.read_text()
+            new, msg = _apply(src, m)
+            if new is None:
+                return (m["name"], "not-applicable", msg)
+            try:
+                compile(new, m["file"], "exec")
+            except SyntaxError as exc:
+                return (m["name"], "broken-mutant", f"does not compile: {exc}")
+            overlay = {m["file"]: new}
         for extra in m.get("also", []):
             p2 = Path(repo_root) / extra["file"]
             s2 = overlay.get(extra["file"]) or p2.read_text()
